@@ -33,6 +33,11 @@ the sharper strict bound with the last processed cell); by-factor bound = maxDen
 movable cell (theorem c18_factor_area_bound).
 Finding F18 (fixed by dfb6548 on agent/C18): before the fix expandCellsByFactor narrows movable cells wider than
 2^24 (binary32 product); the generator contains such cells (3% of the EF cases) and the corpus its witness.
+
+Floating point (theorems c18f_* of Properties_C18.v over the Flocq binary64/binary32 model coq/ExpandFloat.v): the
+compiled code is compared with that model evaluated inside Coq by vm_compute, integer for integer / bit for bit, on
+<= 100 non-dyadic cases per run (checks/c18_float.py, evidence key floating_point_tie); a difference is reported as a
+broken correspondence.
 """
 import hashlib
 import json
@@ -1017,7 +1022,7 @@ def run(ctx):
         "the theorems c18f_* are about the Flocq binary64/binary32 model ExpandFloat.v (one IEEE operation per C++ operator, round to nearest "
         "even: x86-64 SSE2, no -ffast-math, no FMA contraction -- a build with -mfma / -ffp-contract=fast or x87 arithmetic is outside the "
         "model); domain: sizes in [0, 2^31), areas below 2^63, finite arguments, target <= 1, factors in [1, 2^100], congestion values and "
-        "penalties <= 2^40; they use the axioms of Coq's classical real numbers (sig_forall_dec, sig_not_dec, functional_extensionality_dep); "
+        "penalties <= 2^40; they use the axioms of Coq's classical real numbers (sig_forall_dec, sig_not_dec, functional_extensionality_dep, classic); "
         "it is tied to the compiled code integer for integer / bit for bit on <= 100 non-dyadic cases per run (floating_point_tie)",
         "expandCellsByFactor takes float factors: outside the exact class its area bound is re-checked with the slack 2 per movable cell + "
         "2^-22 relative (factor rounding); F18 (binary32 area accumulation / width products, fixed by dfb6548) is what the cases with "
